@@ -183,8 +183,9 @@ range). Leaves: both masks start from the same fill of (start, end) in that orde
 adding 2^POWER - 1, and the fill, as a sum of powers of two modulo 2^64, is 2^(last+1) - 2^first; the iterator over the bits of a mask answers None exactly when no bit is left, otherwise the position of the lowest set bit, and takes exactly that bit off [HEAPMASK]. The tree stores
 through the place mask and queries through the visit mask of (min, max), and from the call down to the mask function every hop returns the next hop's result (nothing cached or merged in) and passes the positions of the two bounds on in order [SEGFLOW]. From these the stored-at places are the
 maximal nodes all of whose leaves are selected (they tile [a,b]) and the visited places are the nodes with a selected leaf
-below: they meet iff the ranges share a bucket (paper argument, DESIGN 10.17). NOT decided: the count bound (at most 8
-copies); a mask computed in a shape the folding cannot follow (closed forms, closures) is reported as undecided.""",
+below: they meet iff the ranges share a bucket; maximal covered nodes are at most two per level below the root's children
+and at most one among those, so at most 2 * (POWER - 1) = 8, and the insert pushes once per bit of the mask [SEGFLOW] (paper
+arguments, DESIGN 10.17). NOT decided by a rule: that arithmetic itself; a mask computed in a shape the folding cannot follow (closed forms, closures) is reported as undecided.""",
      ["two's-complement semantics of << >> & | ^ ! on u64 as documented", "the paper argument from the decided clauses to the overlap equivalence (DESIGN 10.17)"],
      {'HEAPMASK': 5, 'SEGFLOW': 2})
 
